@@ -27,11 +27,8 @@ def main():
         props = [r.split()[1] for r in meta.get("confirmed", {}).get("ran", [])] or [meta.get("property")]
         ap = sh(f"git -C /repo apply {os.path.join(d, 'patch.diff')}")
         if ap.returncode != 0:
-            ap = sh(f"git -C /repo apply --3way {os.path.join(d, 'patch.diff')}")
-            if ap.returncode != 0:
-                print(f"{sid}: patch no longer applies (skipped)")
-                sh("git -C /repo checkout -- . && git -C /repo reset -q")
-                continue
+            print(f"{sid}: patch no longer applies to the repaired tree (skipped)")
+            continue
         got = []
         try:
             for p in props:
